@@ -67,6 +67,131 @@ def fields_of(org, adt):
     return {o[2] for o in org if o[0] == "field" and o[1] == adt}
 
 
+ITERATOR = "core::iter::traits::iterator::Iterator"
+PATH = "std::path::Path"
+# consumers / filters of an iterator whose choice among several existing candidates this rule has no model of
+UNMODELLED_SEARCH = ("find_map", "rfind", "position", "rposition", "try_fold", "try_for_each", "try_rfold", "filter", "filter_map",
+                     "skip_while", "take_while", "map_while", "last", "nth", "nth_back", "next_back", "max", "min", "max_by",
+                     "min_by", "max_by_key", "min_by_key", "fold", "reduce", "scan", "flat_map", "flatten")
+
+
+def iter_method(name, method):
+    """`name` is Iterator::<method>, as the trait item or resolved to an implementation"""
+    return name == "%s::%s" % (ITERATOR, method) or name.endswith(" as %s>::%s" % (ITERATOR, method))
+
+
+def producer_call(P, op, depth=0):
+    """(bb, terminator) of the one call whose result the operand holds, looking through moves, copies and borrows of whole
+    locals; None when the local has several definitions or is not a call result"""
+    if op.get("k") not in ("copy", "move") or depth > 8 or any(p != "*" for p in op["p"]):
+        return None
+    ds = P.defs.get(op["l"], [])
+    if len(ds) != 1:
+        return None
+    d = ds[0]
+    if d[0] == "call":
+        return d[1], d[3]
+    if d[0] == "assign":
+        rv = d[3]["rv"]
+        if rv["k"] in ("use", "cast") and rv["x"]["k"] in ("copy", "move"):
+            return producer_call(P, rv["x"], depth + 1)
+        if rv["k"] == "ref":
+            y = dict(rv["p"])
+            y["k"] = "copy"
+            return producer_call(P, y, depth + 1)
+    return None
+
+
+def closure_body(F, body, op):
+    if "t" not in op:
+        return None
+    ty = body.ty(op["t"])
+    if ty["k"] != "closure":
+        return None
+    c = F.fn_opt(ty["d"])
+    return c if c is not None and c.body is not None else None
+
+
+def is_returned(P, body, dst):
+    """the call result is what the function returns (written to the return place, directly or by whole-local moves)"""
+    if dst["p"]:
+        return False
+    cur = {dst["l"]}
+    for _ in range(4):
+        if 0 in cur:
+            return True
+        nxt = set()
+        for bb, si, s in body.assigns():
+            rv = s["rv"]
+            if rv["k"] == "use" and rv["x"]["k"] in ("copy", "move") and not rv["x"]["p"] and rv["x"]["l"] in cur and not s["p"]["p"]:
+                nxt.add(s["p"]["l"])
+        cur = nxt
+    return False
+
+
+def arg_roots(org):
+    return {o[1] for o in org if o[0] == "arg"}
+
+
+def predicate_is_exists(F, clo):
+    """the closure answers exactly `<its item>.exists()`"""
+    cb = clo.body
+    sites = [t for _, t in cb.calls() if (callee_name(t) or "") == "<%s>::exists" % PATH]
+    if len(sites) != 1 or cb.argc != 2:
+        return False
+    if arg_roots(deep_origins(prov.Prov(F, cb), sites[0]["xs"][0])) != {2}:
+        return False
+    for v in (0, 1):
+        def hook(w, bb, t, env, args, v=v):
+            return v if (callee_name(t) or "") == "<%s>::exists" % PATH else None
+        w = kwalk.Walker(F, cb, call_result=hook, want_ret=True)
+        outs = w.run(0, {})
+        if not outs or {dict(o[2] or ()).get("0") if o[0] == "return" else "diverge" for o in outs} != {v}:
+            return False
+    return True
+
+
+def lazy_first_wins(F, body, P, chain_bbs):
+    """`<candidate directories>.map(|dir| dir.join(path)).find(|c| c.exists())` returned as the result: Iterator::map is lazy and
+    order preserving and Iterator::find stops at the first item its predicate accepts (std), so this is the search loop.
+    Returns True / False; raises WalkLimit for iterator searches this rule has no model of."""
+    finds = [(bb, t) for bb, t in body.calls() if iter_method(callee_name(t) or "", "find")]
+    if not finds:
+        other = sorted({m for _, t in body.calls() for m in UNMODELLED_SEARCH if iter_method(callee_name(t) or "", m)})
+        if other:
+            raise kwalk.WalkLimit("find_import searches the candidates with Iterator::%s: which existing candidate wins is not "
+                                  "modelled for this adapter" % "/".join(other))
+        return False
+    if len(finds) != 1:
+        return False
+    bb, t = finds[0]
+    if not is_returned(P, body, t["dst"]):
+        return False
+    pred = closure_body(F, body, t["xs"][1])
+    if pred is None or not predicate_is_exists(F, pred):
+        return False
+    # the items searched: join(candidate directory, import path), one per directory, in the order of the directories
+    m = producer_call(P, t["xs"][0])
+    if m is None or not iter_method(callee_name(m[1]) or "", "map"):
+        return False
+    mt = m[1]
+    jc = closure_body(F, body, mt["xs"][1])
+    if jc is None or jc.body.argc != 2:
+        return False
+    P2 = prov.Prov(F, jc.body)
+    j = producer_call(P2, {"k": "move", "l": 0, "p": []})
+    if j is None or (callee_name(j[1]) or "") != "<%s>::join" % PATH:
+        return False
+    if arg_roots(deep_origins(P2, j[1]["xs"][0])) != {2} or arg_roots(deep_origins(P2, j[1]["xs"][1])) != {1}:
+        return False
+    # what the closure captured is the import path (an argument of find_import), nothing read from the session
+    cap = deep_origins(P, mt["xs"][1])
+    if not arg_roots(cap) or fields_of(cap, SI) or any(body.local_ty(a)["s"] != "&str" for a in arg_roots(cap)):
+        return False
+    src = producer_call(P, mt["xs"][0])
+    return src is not None and src[0] in chain_bbs
+
+
 def rule_r1(F, rep):
     R = rep.rule("C13.R1", "a relative import is looked up first next to the importing file and then in the library "
                  "directories in registration order, the first existing candidate wins; an absolute path is only "
@@ -142,8 +267,16 @@ def rule_r1(F, rep):
                 org = deep_origins(P, t["xs"][0])
                 if any(o[0] == "call" and o[1] == "<std::path::Path>::join" for o in org):
                     okw = True
-    rep.ob(R, "find_import|first-existing-wins", okw)
+    undecided = None
     if not okw:
+        # no search loop in the body: the same search written as a lazy iterator pipeline
+        try:
+            okw = lazy_first_wins(F, body, P, [bb for bb, _ in chains])
+        except kwalk.WalkLimit as e:
+            undecided = e           # raised after the remaining clauses have been checked
+    if undecided is None:
+        rep.ob(R, "find_import|first-existing-wins", okw)
+    if not okw and undecided is None:
         rep.violation(R, "%s|first-wins" % fn.q, "the search loop does not return the first existing `dir.join(path)` candidate", fn.loc)
     # absolute: is_absolute true edge only tests the path itself
     ok_abs = False
@@ -203,6 +336,8 @@ def rule_r1(F, rep):
     if not okr:
         rep.violation(R, "rsjsonnet::main_inner|jpath-order", "-J directories are not registered in reverse order (the right-most "
                       "-J must be searched first)", mi.loc)
+    if undecided is not None:
+        raise undecided
 
 
 def rule_r2(F, rep):
